@@ -21,6 +21,8 @@ def run(ctx, rep):
     textparse.rule_ascii_digit_scanners(ctx, rep, "C04-R7", modules=("lexer", "regex.parser", "context", "vm", "values"), floor=3)
     frontend.rule_front_end_recursion_converted(ctx, rep, "C04-R10")
     implicit.rule_bounded_repetition(ctx, rep, "C04-R11")
+    textparse.rule_decimal_text_length_bounded(ctx, rep, "C04-R12")
+    textparse.rule_raw_number_subscripts(ctx, rep, "C04-R13")
     rep.undecided += [
         "that reported line/column are the right numbers (value property)",
         "RecursionError beyond the documented parser nesting limit",
